@@ -250,9 +250,9 @@ class Application(object):
             bound_routes = rf.bind_all(self, **kwargs)
         else:
             bound_routes = [rf.bind(self, **kwargs)]
-        for br in bound_routes:
-            self.routes.insert(index, br)
-            index += 1
+        # slice assignment keeps the new routes together for any index,
+        # including negative ones
+        self.routes[index:index] = bound_routes
         return
 
     def _dispatch_wsgi(self, environ, start_response):
